@@ -334,8 +334,28 @@ def subdivision(tier, seed):
                                 fail("subdivide_to_size:return_index-names-the-wrong-original-face", mname, "scale %g" % sc)
                     except Exception as ex:  # noqa: BLE001
                         fail("subdivide_to_size:raised %s" % type(ex).__name__, mname, ex)
+    # the array-level function with integer / float32 vertex arrays (lattice coordinates): the
+    # midpoints are not integers, and the surface must still be the same
+    octa_v = rnp.array([[3, 0, 0], [-3, 0, 0], [0, 3, 0], [0, -3, 0], [0, 0, 3], [0, 0, -3]])
+    octa_f = rnp.array([[0, 2, 4], [2, 1, 4], [1, 3, 4], [3, 0, 4], [2, 0, 5], [1, 2, 5], [3, 1, 5], [0, 3, 5]])
+    tet_v = rnp.array([[0, 0, 0], [1, 0, 0], [0, 1, 0], [0, 0, 1]])
+    tet_f = rnp.array([[0, 2, 1], [0, 1, 3], [1, 2, 3], [2, 0, 3]])
+    for sname_, vv, ff in (("octahedron", octa_v, octa_f), ("tetrahedron", tet_v, tet_f)):
+        ref = trimesh.Trimesh(vv.astype(float), ff, process=False)
+        for dt in (rnp.int64, rnp.int32, rnp.float32, rnp.float64):
+            for rounds in (1, 2):
+                cases += 1
+                try:
+                    v_, f_ = vv.astype(dt), ff
+                    for _ in range(rounds):
+                        v_, f_ = trimesh.remesh.subdivide(v_, f_)
+                    got = trimesh.Trimesh(rnp.asarray(v_, dtype=float), f_, process=False)
+                    if abs(got.area - ref.area) > 1e-6 * ref.area or abs(got.volume - ref.volume) > 1e-6 * abs(ref.volume):
+                        fail("subdivide[array-level,%s vertices]:area-or-volume-changed" % rnp.dtype(dt).name, sname_, "rounds %d: area %g vs %g, volume %g vs %g" % (rounds, got.area, ref.area, got.volume, ref.volume))
+                except Exception as ex:  # noqa: BLE001
+                    fail("subdivide[array-level,%s vertices]:raised %s" % (rnp.dtype(dt).name, type(ex).__name__), sname_, ex)
     fails = sorted(cells.values(), key=lambda c: c["cell"])
-    r = common.result(cases, cases, fails, "7 meshes x (3 subdivide variants, twice, loop, 16 size-bounded runs at 4 scales)", exhaustive=True)
+    r = common.result(cases, cases, fails, "7 meshes x (3 subdivide variants, twice, loop, 16 size-bounded runs at 4 scales) + array-level subdivide with 4 vertex number types", exhaustive=True)
     r["failures"] = fails
     return r
 
